@@ -23,6 +23,14 @@ Ties on the real mloda:
          the plan of an earlier prepared session must not change when its argument objects are passed to a later call.
          (The two former known findings C07-filter-collection-accumulates / C07-links-set-grows are fixed in /repo; their
          witnesses are run first as regression cases.)
+  B-dom  the same machinery on a universe WITH DOMAINS (gen_dom_case): two roots with the same columns in the domains sales /
+         finance, a pandas root in the default domain, a root whose group has a domain while its features are requested
+         without one, derived groups whose input features inherit the requested feature's domain / carry their own; ONE
+         GlobalFilter (filter features without / with own domain, compute framework, options) re-used by 3-6 calls whose
+         requested features belong to different domains and frameworks; 4-row tables with values on both sides of the filter
+         bound.  Everything planning could write into a shared filter object (filter_feature.options / .domain /
+         .compute_frameworks) is in the heap model; the caller's filter objects after each call are part of the Coq replay
+         (co_filters), and the returned ROWS are compared with the same call on fresh equal objects.
 """
 from __future__ import annotations
 
@@ -1640,6 +1648,11 @@ def run(rep: vlib.Reporter, tier: str, seed: int) -> None:
         "tables with a fresh run_all is established by direct comparison on every generated history, not by proof",
         "THREADING histories are replayed against a canonical fair schedule (every started step completes before the next "
         "loop iteration); the theorem itself quantifies over all schedules",
+        "Model/Args.v with domains: one compute framework per group; SingleFilter.name / uuid and filter_feature.uuid / data_type / "
+        "link / index are not in the heap model (structural snapshot only); which of several exceptions raised inside the "
+        "recursion over sets comes first, and whether the look-up of an equal stored feature meets a domain-less namesake first "
+        "(Domain.__eq__ raises), is set iteration order: compared up to the class {ENoGroup, EMulti, EDomCmp} resp. for some "
+        "value of the order parameter c_hz",
         "Feature objects nested in option values (in_features) and option values that cannot be deep-copied are outside "
         "Model/Args.v: Options.__deepcopy__ is covered by direct observation only (part C: deep snapshot of the nested objects "
         "before/after every call, re-used vs fresh equal objects)",
@@ -1659,7 +1672,9 @@ def run(rep: vlib.Reporter, tier: str, seed: int) -> None:
                     "A-modes: histories (<= 6 operations) whose operations draw their mode from {SYNC, THREADING, MULTIPROCESSING} as far as "
                     "the plan admits (conflict_free / conflict_free_x, no api_data-backed root, no transform from a non-Arrow framework); "
                     "non-trivial = >= 2 modes and >= 2 operation kinds in one history. B-modes: the call sequences of B with every run_all "
-                    "drawing its mode; non-trivial = run_all calls in >= 2 modes within one sequence.")
+                    "drawing its mode; non-trivial = run_all calls in >= 2 modes within one sequence. B-dom: PRNG sequences of 3-6 "
+                    "prepare/run_all calls over a universe with domains sharing ONE GlobalFilter; non-trivial = the filter is passed to "
+                    "calls over >= 2 different non-empty domain sets.")
     if not pr.ok and not found:
         rep.finding("proof-broken", "Props/C07.v no longer checks",
                     {"failed_files": pr.failed_files, "forbidden": pr.forbidden, "log_tail": pr.log[-3000:]}, found_input=False)
